@@ -257,8 +257,11 @@ def gen_bytes(rng, tier):
             cls += "-notws"
         lits.append((K_B64, "b64'" + enc + "'", cls))
     # base16: exhaustive strings up to 5 over a reduced alphabet incl. a non-digit; all pairs over the full alphabet
-    for n in range(0, 6):
+    for n in range(0, (5 if tier == "quick" else 6)):
         for t in itertools.product("09afAFg", repeat=n):
+            lits.append((K_B16, "h'" + "".join(t) + "'", "b16-enum"))
+    if tier == "quick":
+        for t in itertools.product("0aFg", repeat=5):
             lits.append((K_B16, "h'" + "".join(t) + "'", "b16-enum"))
     for a in HEXA + "gG":
         for b in HEXA + "gG":
@@ -531,8 +534,8 @@ def run(tier, seed):
             use = [] if (k == K_OCC or (k in (K_TEXT, K_B16, K_B64, K_BUTF8) and ";" in t)) else tpls[:1]
         elif cls in FULL_POS_CLASSES or i % (4 if wide else 23) == 0:
             use = tpls
-        elif len(tpls) > 1 and i % 2 == 0:
-            use = tpls[:1] + [tpls[1 + ((i // 2) % (len(tpls) - 1))]]
+        elif len(tpls) > 1 and i % 3 == 0:
+            use = tpls[:1] + [tpls[1 + ((i // 3) % (len(tpls) - 1))]]
         else:
             use = tpls[:1]
         for name, dfmt, efmt in use:
@@ -660,7 +663,7 @@ def run(tier, seed):
 
     # ---- vm_compute slice: the extracted oracle computes what Coq computes ----
     small = [i for i, (k, t, _) in enumerate(cases) if len(t) <= 24 and orlines[i] is not None]
-    sl = rng.sample(small, min(120, len(small)))
+    sl = rng.sample(small, min(100, len(small)))
     vm = common.vm_compute_slice(PROP, VM_PREAMBLE, ["lit_eval %d %s" % (cases[i][0], common.coq_list([ord(c) for c in cases[i][1]])) for i in sl])
     vm_bad = [(cases[i][1], x, orlines[i]) for i, x in zip(sl, vm) if x != orlines[i]]
     if vm_bad:
@@ -678,13 +681,13 @@ def run(tier, seed):
                 "compared with the model; enumerated scopes: all decimal digit strings <= 4 (with and without '-'), 0x/0X + all "
                 "case-mixed hex strings <= 3 (4 in thorough), 0b/0B/-0b + all strings over {0,1,2} <= 6, all strings <= 4 over "
                 "{0,1,9,a,F,x,X,b,B,-,e,p,+}, all pairs of escape forms, all base64 strings <= 4 (5) over {A,Q,R,g,9,+,/,-,_,=,!}, "
-                "all symbol pairs over both base64 alphabets, all hex strings <= 5 over {0,9,a,f,A,F,g}, all hex digit pairs; "
+                "all symbol pairs over both base64 alphabets, all hex strings <= 4 (5 in thorough; quick adds length 5 over {0,a,F,g}) over {0,9,a,f,A,F,g}, all hex digit pairs; "
                 "boundaries around 2^31, 2^32, 2^63, 2^64 in every spelling and position; random longer strings",
         "exhaustive": True,
         "exhaustive_scope": ["decimal digit strings <= 4 chars", "hex digit strings <= %d chars x {0x,0X}" % (4 if wide else 3),
                              "binary strings <= 6 chars over {0,1,2}", "mixed strings <= 4 chars over 13 characters",
                              "pairs of %d escape forms" % len(ESC_ATOMS), "base64 <= %d chars over 11 characters" % (5 if wide else 4),
-                             "base64 symbol pairs (66 x 66)", "base16 <= 5 chars over 7 characters", "base16 digit pairs (24 x 24)",
+                             "base64 symbol pairs (66 x 66)", "base16 <= %d chars over 7 characters%s" % ((5, "") if wide else (4, " and = 5 chars over {0,a,F,g}")), "base16 digit pairs (24 x 24)",
                              "h'12<c>34' for every code point c %s" % ("" if wide else "< U+3100")],
         "literals": len(cases) + len(ws_lits), "literal_kinds": kinds_hist, "documents": len(docs),
         "class_histogram": hist, "position_histogram": pos_hist, "verdict_split": split,
